@@ -18,8 +18,8 @@ CLAIMED = {
    design="§7 C15"),
  "C16": dict(
    engine="wire",
-   text="Kernel-checked theorems: no proper prefix of a valid value/protocol body decodes (format is self-delimiting), and the model of the C++ CodedInputStream raises end-of-stream on every cut of every primitive for every buffer capacity >= 10 without ever reading outside its valid window. Tied to the code by (1) model-vs-runtime runs of the real C++ and Python coded streams at small capacities on every prefix and (2) every-prefix / refill-boundary cuts of reference streams through generated C++ and Python readers.",
-   note="Trusted: Lean kernel; hand transliteration of coded_stream.h (tied by differential runs at capacities 10,11,16,64); the lift from primitive reads to whole generated readers is by correspondence, not proof; no Lean model of the Python reader (judged by the property's oracle).",
+   text="Kernel-checked theorems: no proper prefix of a valid value/protocol body decodes (format is self-delimiting), the model of the C++ CodedInputStream raises end-of-stream on every cut of every primitive for every buffer capacity >= 10 without ever reading outside its valid window, and the model of the Python CodedInputStream (_binary.py: buffer window, short-read flag, underlying bytes; the larger-than-buffer path of read_view included) returns exactly the next bytes on every read for every buffer size and raises on every read that needs more than the stream holds (EOFError, or the BufferError of the off-by-one slice in _fill_buffer, proved to occur only on truncated input). Tied to the code by (1) token-for-token model-vs-runtime runs of the real C++ and Python coded streams at small capacities on every prefix and (2) every-prefix / refill-boundary cuts of reference streams through generated C++ and Python readers.",
+   note="Trusted: Lean kernel; hand transliteration of coded_stream.h (tied by differential runs at capacities 10,11,16,64); hand transliteration of _binary.py's CodedInputStream (same tie); the lift from primitive reads to whole generated readers is by correspondence, not proof.",
    technique="Lean 4 proof (induction over varint/bytes loops) + differential correspondence on truncated streams",
    design="§7 C16"),
  "C17": dict(
@@ -66,9 +66,9 @@ CLAIMED = {
    design="§7 C04"),
  "C02": dict(
    engine="json",
-   text="Lean model of the documented NDJSON mapping (toJ/fromJ, union tagging rule, omitted nullable fields, enum symbols, maps, arrays). Kernel-checked: fromJ (toJ v) = v for every well-formed type and typed value - primitives, enums, records (nullable fields holding null are omitted and read back as null; fields found by name), optionals, tagged and untagged unions, vectors, arrays of all kinds, maps with string and non-string keys, any nesting depth (mutual structural induction); the reader of an untagged union picks exactly the written case; the JSON data type of every mapped value is among those GetJsonDataType announces; the model's table of those types equals what the current source computes (regenerated by executing it). Hypotheses: distinct field names / tags / enum symbols, no optional of a nullable type (the collapse is proved as nested_optional_collapses), date formatter and parser inverse, no !flags (their greedy decomposition is evaluated by the driver on every generated value). Tied to generated C++ and Python by a writer leg (every NDJSON line written must denote the value toJ prescribes) and a reader leg (NDJSON rendered from toJ is read back to the same values), with stream items alternating optional presence; the driver evaluates the theorem's hypothesis WF on every generated protocol.",
-   note="Not proved: !flags values (evaluated). Decimal<->float conversion is delegated to CPython (floats are bit patterns in the model); C++ NDJSON legs exclude date/time/datetime (date.h stand-in). Seven defects fixed.",
-   technique="Lean 4 proof (mutual structural induction, JSON round trip) + differential correspondence through generated C++/Python",
+   text="Lean model of the documented NDJSON mapping (toJ/fromJ, union tagging rule, omitted nullable fields, enum symbols, maps, arrays). Kernel-checked: fromJ (toJ v) = v for every well-formed type and typed value - primitives, enums, flags (array of the names found by the greedy bit-clearing decomposition, or the number itself), records (nullable fields holding null are omitted and read back as null; fields found by name), optionals, tagged and untagged unions, vectors, arrays of all kinds, maps with string and non-string keys, any nesting depth (mutual structural induction); the reader of an untagged union picks exactly the written case; the JSON data type of every mapped value is among those GetJsonDataType announces; the model's JSON data types of primitives and of enums, flags, records, vectors, arrays and maps equal what the current source computes (regenerated by executing GetJsonDataType); the line-oriented step reader with its one-line look-ahead (model of ReadProtocolValue / _read_json_line, driven as the generated readers drive it) returns exactly the written values for every protocol with distinct step names and every value sequence, empty streams anywhere included, and a missing non-stream step is an error. Hypotheses: distinct field names / tags / enum symbols, no optional of a nullable type (the collapse is proved as nested_optional_collapses), date formatter and parser inverse. Tied to generated C++ and Python by a writer leg (every NDJSON line written must denote the value toJ prescribes) and a reader leg (NDJSON rendered from toJ is read back to the same values), with stream items alternating optional presence, and by line sequences (valid and mutated: dropped, duplicated, swapped, moved, extra lines) through the generated readers and the step-reader model; the driver evaluates the theorem's hypothesis WF on every generated protocol.",
+   note="A defect found by the proof (flags announced only JSON array although undeclared bits are written as a number) was fixed (ccb2b4a). Decimal<->float conversion is delegated to CPython (floats are bit patterns in the model); C++ NDJSON legs exclude date/time/datetime (date.h stand-in). Eight defects fixed.",
+   technique="Lean 4 proof (mutual structural induction, JSON round trip; step-reader state machine) + differential correspondence through generated C++/Python",
    design="§7 C02"),
  "C03": dict(
    engine="wire",
@@ -90,13 +90,13 @@ CLAIMED = {
    design="§7 C13"),
  "C06": dict(
    engine="evolution",
-   text="Lean model of the structural core of schema-evolution change detection (compareTypes and the detect*Changes family on resolved types with nominal records/enums, generic records as open definition + type arguments compared argument-wise (compareSemanticallyEquivalentTypes) with type parameters compared by position, the greedy union matching, record/enum definition comparison, and the error/warning/silent classification of validateTypeDefinitionChanges / validateProtocolChanges). Kernel-checked: the verdict function is total; its primitive-change classification equals, on all 324 ordered pairs, a table regenerated every run by executing ValidateEvolution of the current source; documented primitive classes (numbers and strings interconvert with a warning, complex with complex, everything else rejected, identical silent); rejection is symmetric; stream/vector/optional wrappers preserve errors and unchangedness; a well-formed type (distinct field / symbol names, non-empty unions - what validation enforces) compared with itself is unchanged, for every type incl. records, enums, unions (greedy matching pairs every case with itself) and generic instances, at any depth, and the hypothesis is necessary (witness); a protocol with distinct step names compared with itself gets the verdict ok whatever the new version defines. Tied to the code by judging random version pairs (1-3 random edits at any position: type rewrites, record/enum edits, edits of generic record bodies, protocol edits; versions with generic records instantiated several times) and a directed family (several instantiations of one generic reached from one step / several steps / a holder record x every documented edit in a definition only one type argument reaches) with the real ValidateEvolution in-process (and yardl validate on a sample) and with the model: verdicts must agree, no panic, same answer twice; every edit of a documented class at a position the documentation speaks about must get the documented verdict; the documentation's own examples, meaning-preserving rewrites of packages with generics/aliases (order, unused definitions, comments, rename through alias, re-spelling) must be silent, and type-argument changes (also behind an alias in one version) rejected.",
+   text="Lean model of the structural core of schema-evolution change detection (compareTypes and the detect*Changes family on resolved types with nominal records/enums, generic records as open definition + type arguments compared argument-wise (compareSemanticallyEquivalentTypes) with type parameters compared by position, the greedy union matching, record/enum definition comparison, and the error/warning/silent classification of validateTypeDefinitionChanges / validateProtocolChanges). Kernel-checked: the verdict function is total; its primitive-change classification equals, on all 324 ordered pairs, a table regenerated every run by executing ValidateEvolution of the current source; documented primitive classes (numbers and strings interconvert with a warning, complex with complex, everything else rejected, identical silent); rejection is symmetric; stream/vector/optional wrappers preserve errors and unchangedness; a well-formed type (distinct field / symbol names, non-empty unions - what validation enforces) compared with itself is unchanged, for every type incl. records, enums, unions (greedy matching pairs every case with itself) and generic instances, at any depth, and the hypothesis is necessary (witness); a protocol with distinct step names compared with itself gets the verdict ok whatever the new version defines; and every class docs/cpp/evolution.md lists (except alias renames), for all well-formed inputs: steps removed (error) / inserted anywhere (silent iff the step can be empty) / moved (error); scalar <-> optional (warning; vectors, arrays, maps rejected - the open finding as a theorem); optional <-> union (warning); union cases added / removed (warning) / reordered by any permutation (no message); record fields added / removed (silent iff nullable) / reordered by any permutation (silent); enum definitions changed (error) vs symbols added (silent); scalar <-> vector / array (error); type arguments changed in number or value (error). Tied to the code by judging random version pairs (1-3 random edits at any position: type rewrites, record/enum edits, edits of generic record bodies, protocol edits; versions with generic records instantiated several times) and a directed family (several instantiations of one generic reached from one step / several steps / a holder record x every documented edit in a definition only one type argument reaches) with the real ValidateEvolution in-process (and yardl validate on a sample) and with the model: verdicts must agree, no panic, same answer twice; every edit of a documented class at a position the documentation speaks about must get the documented verdict; the documentation's own examples, meaning-preserving rewrites of packages with generics/aliases (order, unused definitions, comments, rename through alias, re-spelling) must be silent, and type-argument changes (also behind an alias in one version) rejected.",
    note="Not modelled: pairing of definitions through *aliases* (SemanticPairs of renamed definitions) - exercised by the rewrite/edit-class differential only; generic aliases and multi-parameter generics are exercised by the directed examples only. Known finding: dimensioned types cannot be made optional / union members. One defect fixed (respelled previous version rejected).",
    technique="Lean 4 model + kernel-checked theorems (reflexivity for all well-formed types, primitive table regenerated from source) + differential correspondence with ValidateEvolution + documented-class oracle",
    design="§7 C06"),
  "C05": dict(
    engine="evolution",
-   text="Lean model conv of the value conversions the generated C++ performs between schema versions (records field-by-name with added fields zeroed and removed ones dropped, element-wise vectors/streams/optionals, optional<->scalar<->union through the matched case with zero values, union<->union through the greedy matching with a runtime error for cases without counterpart, integer conversions with the generated overflow checks, integers<->canonical decimal strings). Kernel-checked: totality; a value converted between two identical well-formed types is unchanged, in both directions, for every type (records field by field through the by-name lookup, enums, unions through the self-matching of detectUnionChanges, optionals, vectors, arrays, maps; any depth) and every value of the type; the documented record/overflow behaviours on concrete shapes. Tied to the code by execution: random and directed chains M0->M1->M2 of accepted edits (every documented compatible / partially compatible class at a field and at a step); M2 lists M0 and M1, its C++ is generated and compiled on every run; Lean-encoded streams of each listed version are read by the new reader and re-written, and newest-version values are written for each listed version; outputs are decoded by the Lean reference decoder (with the right schema in the header) and compared with conv; predicted runtime errors must be raised; crashes are violations.",
+   text="Lean model conv of the value conversions the generated C++ performs between schema versions (records field-by-name with added fields zeroed and removed ones dropped, element-wise vectors/streams/optionals, optional<->scalar<->union through the matched case with zero values, union<->union through the greedy matching with a runtime error for cases without counterpart, integer conversions with the generated overflow checks, integers<->canonical decimal strings). Kernel-checked: totality; a value converted between two identical well-formed types is unchanged, in both directions, for every type (records field by field through the by-name lookup, enums, unions through the self-matching of detectUnionChanges, optionals, vectors, arrays, maps; any depth) and every value of the type; adding a field, for every record and value: the new reader keeps every old field and zeroes the new one, the new writer for the previous version drops it, old data passes through unchanged; between any two integer types exactly the values inside the target's range convert, every other value is the documented runtime error; the documented record/overflow behaviours on concrete shapes. Tied to the code by execution: random and directed chains M0->M1->M2 of accepted edits (every documented compatible / partially compatible class at a field and at a step); M2 lists M0 and M1, its C++ is generated and compiled on every run; Lean-encoded streams of each listed version are read by the new reader and re-written, and newest-version values are written for each listed version; outputs are decoded by the Lean reference decoder (with the right schema in the header) and compared with conv; predicted runtime errors must be raised; crashes are violations.",
    note="PARTIAL: conversions involving floating point/complex numbers and non-canonical number<->string text are not modelled (checked for 'no crash' only); Python/MATLAB have no evolution support (documented). Trusted: Lean kernel, evogen.py, C++ ndarray shim (default dynamic array = 0-d with one element, as xtensor). Conversions between *different* types are tied by execution only (no theorem says what the right converted value is beyond the documented classes). Directed chains include same-width sign changes. Four defects fixed (stale values across stream items; three families of non-compiling conversion code).",
    technique="Lean 4 model + kernel-checked theorems (identity conversion for all well-formed types, totality) + differential execution of freshly generated C++ against the model",
    design="§7 C05"),
